@@ -41,7 +41,8 @@ ZERO_CLASSES = {
 
 # ε-copy expected types of the leaf classes and of the arguments used for instantiation
 EPS = {"u32": "u32", "u8": "u8", "u64": "u64", "f64": "f64", "P1": "&'a P1", "Vec<u32>": "&'a [u32]", "String": "&'a str", "Vec<String>": "Vec<&'a str>",
-       "u16": "u16", "Vec<Vec<u16>>": "Vec<&'a [u16]>", "D1": "D1", "Option<Vec<u64>>": "Option<&'a [u64]>"}
+       "u16": "u16", "Vec<Vec<u16>>": "Vec<&'a [u16]>", "D1": "D1", "Option<Vec<u64>>": "Option<&'a [u64]>",
+       "core::ops::RangeInclusive<u32>": "core::ops::RangeInclusive<u32>", "bool": "bool", "Option<bool>": "Option<bool>"}
 
 
 def mk_params(needed, zero, internal_kind, bound_style, defaults, const_first=False):
@@ -219,7 +220,10 @@ def instantiations(d, tier):
             if d.zero:
                 choices.append([("u32", "u32")] if tier == "quick" else [("u32", "u32"), ("P1", "P1"), ("(u16, u16)", "(u16, u16)")])
             else:
-                args = ["Vec<u32>", "String"] if tier == "quick" else ["Vec<u32>", "String", "Vec<String>", "P1", "Option<Vec<u64>>", "u64"]
+                # (a range that is written field by field plus a trailing flag, and one-byte values:
+                # what follows them in the stream is read at the right place only if their
+                # ε-copy readers consume exactly what was written)
+                args = ["Vec<u32>", "String", "core::ops::RangeInclusive<u32>"] if tier == "quick" else ["Vec<u32>", "String", "Vec<String>", "P1", "Option<Vec<u64>>", "u64", "core::ops::RangeInclusive<u32>", "bool", "Option<bool>"]
                 choices.append([(a, EPS[a] if p.name in fps else a) for a in args])
     out = []
     prod = list(itertools.product(*choices)) if choices else [()]
